@@ -877,6 +877,150 @@ theorem bounds_contain_type' {env : Env} {fs : List Expr} {e : Expr} {b : IR}
     (hne : (typeOf e).base ≠ .ideal) : inType (typeOf e) (evalI env e) :=
   (bounds_contain_aux hf e false b hv h).2.2 rfl hne
 
+/-! ## every node of an accepted expression (what the driver's `bounds` op lists) -/
+
+theorem nodesPre_cons (e : Expr) : nodesPre e = e :: (nodesPre e).tail := by
+  cases e <;> simp [nodesPre]
+
+theorem mem_nodesPre {e nd : Expr} (h : nd ∈ nodesPre e) : nd = e ∨ nd ∈ (nodesPre e).tail := by
+  rw [nodesPre_cons e] at h
+  simpa using h
+
+/-- the checker accepts every (non-prefix) sub-node of an accepted expression -/
+theorem nodes_accepted (fs : List Expr) :
+    ∀ (e : Expr) (raw : Bool) (b : IR), bcheck fs raw e = some b →
+      ∀ nd ∈ (nodesPre e).tail, ∃ b', bcheck fs false nd = some b' := by
+  intro e
+  induction e with
+  | const v => intro raw b _ nd hnd; simp [nodesPre] at hnd
+  | var n t => intro raw b _ nd hnd; simp [nodesPre] at hnd
+  | unary op e ih =>
+    intro raw b h nd hnd
+    simp only [nodesPre, List.tail_cons] at hnd
+    simp only [bcheck] at h
+    split at h
+    · cases h
+    · rename_i rb hrb
+      rcases mem_nodesPre hnd with rfl | ht
+      · exact ⟨rb, hrb⟩
+      · exact ih false rb hrb nd ht
+  | binary op l r ihl ihr =>
+    intro raw b h nd hnd
+    simp only [nodesPre, List.tail_cons, List.mem_append] at hnd
+    simp only [bcheck] at h
+    split at h
+    · cases h
+    · rename_i lb hlb
+      split at h
+      · cases h
+      · rename_i rb hrb
+        rcases hnd with hnd | hnd
+        · rcases mem_nodesPre hnd with rfl | ht
+          · exact ⟨lb, hlb⟩
+          · exact ihl false lb hlb nd ht
+        · rcases mem_nodesPre hnd with rfl | ht
+          · exact ⟨rb, hrb⟩
+          · exact ihr false rb hrb nd ht
+  | «as» t e ih =>
+    intro raw b h nd hnd
+    simp only [nodesPre, List.tail_cons] at hnd
+    simp only [bcheck] at h
+    split at h
+    · cases h
+    · rename_i eb heb
+      rcases mem_nodesPre hnd with rfl | ht
+      · exact ⟨eb, heb⟩
+      · exact ih false eb heb nd ht
+  | assoc op pre l r ihl ihr =>
+    intro raw b h nd hnd
+    simp only [nodesPre, List.tail_cons, List.mem_append] at hnd
+    simp only [bcheck] at h
+    split at h
+    · cases h
+    · split at h
+      · cases h
+      · rename_i lb hlb
+        split at h
+        · cases h
+        · rename_i rb hrb
+          rcases hnd with hnd | hnd
+          · cases pre
+            · simp only [Bool.false_eq_true, if_false] at hnd
+              rcases mem_nodesPre hnd with rfl | ht
+              · exact ⟨lb, hlb⟩
+              · exact ihl false lb hlb nd ht
+            · simp only [if_true] at hnd
+              exact ihl true lb hlb nd hnd
+          · rcases mem_nodesPre hnd with rfl | ht
+            · exact ⟨rb, hrb⟩
+            · exact ihr false rb hrb nd ht
+  | index a len ety i ih =>
+    intro raw b h nd hnd
+    simp only [nodesPre, List.tail_cons] at hnd
+    simp only [bcheck] at h
+    split at h
+    · cases h
+    · rename_i ib hib
+      rcases mem_nodesPre hnd with rfl | ht
+      · exact ⟨ib, hib⟩
+      · exact ih false ib hib nd ht
+
+theorem nodes_varsOk {env : Env} :
+    ∀ (e : Expr), varsOk env e → ∀ nd ∈ nodesPre e, varsOk env nd := by
+  intro e
+  induction e with
+  | const v => intro hv nd hnd; simp [nodesPre] at hnd; subst hnd; exact hv
+  | var n t => intro hv nd hnd; simp [nodesPre] at hnd; subst hnd; exact hv
+  | unary op e ih =>
+    intro hv nd hnd
+    simp only [nodesPre, List.mem_cons] at hnd
+    rcases hnd with rfl | hnd
+    · exact hv
+    · exact ih hv nd hnd
+  | binary op l r ihl ihr =>
+    intro hv nd hnd
+    simp only [nodesPre, List.mem_cons, List.mem_append] at hnd
+    rcases hnd with rfl | hnd | hnd
+    · exact hv
+    · exact ihl hv.1 nd hnd
+    · exact ihr hv.2 nd hnd
+  | «as» t e ih =>
+    intro hv nd hnd
+    simp only [nodesPre, List.mem_cons] at hnd
+    rcases hnd with rfl | hnd
+    · exact hv
+    · exact ih hv nd hnd
+  | assoc op pre l r ihl ihr =>
+    intro hv nd hnd
+    simp only [nodesPre, List.mem_cons, List.mem_append] at hnd
+    rcases hnd with rfl | hnd | hnd
+    · exact hv
+    · refine ihl hv.1 nd ?_
+      cases pre
+      · simpa using hnd
+      · simp only [if_true] at hnd
+        exact List.mem_of_mem_tail hnd
+    · exact ihr hv.2 nd hnd
+  | index a len ety i ih =>
+    intro hv nd hnd
+    simp only [nodesPre, List.mem_cons] at hnd
+    rcases hnd with rfl | hnd
+    · exact hv
+    · exact ih hv.1 nd hnd
+
+/-- per-node form of `bounds_contain`: every node the checker annotates with bounds
+(`MBounds`) while accepting `e` evaluates safely to a value inside those bounds -/
+theorem bounds_contain_nodes' {env : Env} {fs : List Expr} {e : Expr} {b : IR}
+    (hf : FactsHold env fs) (hv : varsOk env e) (h : bcheck fs false e = some b) :
+    ∀ nd ∈ nodesPre e, ∃ b', bcheck fs false nd = some b' ∧
+      safe env false nd ∧ b'.mem (evalI env nd) := by
+  intro nd hnd
+  have hvn := nodes_varsOk e hv nd hnd
+  rcases mem_nodesPre hnd with rfl | ht
+  · exact ⟨b, h, bounds_contain' hf hv h⟩
+  · obtain ⟨b', hb'⟩ := nodes_accepted fs e false b h nd ht
+    exact ⟨b', hb', bounds_contain' hf hvn hb'⟩
+
 /-- Soundness of `proveBinaryOp` (the no-`via` path of `bcheckAssert`, the requirements
 of the `via` reasons, the index obligations): what it proves from the facts and the
 operand bounds is true in every store that satisfies the facts. -/
